@@ -42,7 +42,8 @@ func clientTuples(schema *ast.Schema, op *ast.OperationDefinition, rootType stri
 				if concrete && parent != nil && parent.Kind == ast.Object && !strings.HasPrefix(s.Name, "__") {
 					out = append(out, selTuple{path: strings.Join(path, "."), parent: parent.Name, field: s.Name, key: key})
 				}
-				if len(s.SelectionSet) > 0 && s.Definition != nil {
+				if len(s.SelectionSet) > 0 && s.Definition != nil && !strings.HasPrefix(s.Name, "__") {
+					// (introspection fields are answered by the gateway itself)
 					ft := schema.Types[s.Definition.Type.Name()]
 					walk(s.SelectionSet, ft, append(append([]string{}, path...), key), concrete && ft != nil && ft.Kind == ast.Object, map[string]bool{})
 				}
